@@ -5,6 +5,7 @@
 #include "static_type.hpp"
 #include <ipr/impl>
 #include <unordered_map>
+#include <deque>
 
 using namespace vh;
 using namespace ipr;
@@ -118,6 +119,37 @@ struct Harness {
       ctx().eval(h, k >= 2);
    }
 
+   // Operands that are qualified types this Lexicon did not make: the node another live Lexicon returned for (set, T) over a
+   // process-wide built-in T, and a Qualified node the client built itself.  Qualifying one yields THIS Lexicon's node for the
+   // union over T - the same node as the direct request - whether or not the request adds a qualifier the operand lacks.
+   impl::Lexicon other;
+   std::deque<impl::Qualified> client_made;
+   void foreign_operands()
+   {
+      for (std::size_t ti = 0; ti < 11; ++ti) {
+         const Type& T = *base[ti];
+         for (std::uintptr_t have = 1; have <= 7; ++have) {
+            client_made.emplace_back(impl::Qualified::Rep { Qualifiers(have), T });
+            const Type* operands[] = { &other.get_qualified(Qualifiers(have), T), &client_made.back() };
+            for (int src = 0; src < 2; ++src)
+               for (std::uintptr_t ask = 1; ask <= 7; ++ask) {
+                  const std::uintptr_t S = have | ask;
+                  const Qualified& R = lex.get_qualified(Qualifiers(ask), *operands[src]);
+                  ctx().count(src ? "requalifications_of_a_client_made_qualified_type" : "requalifications_of_another_lexicons_qualified_type");
+                  const std::string fam = src ? "client-made-operand" : "other-lexicon-operand";
+                  auto why = [&](const char* what) { ctx().viol(std::string(what) + ":" + fam, std::string(what) + " when qualifying (set " + std::to_string(ask) + ") a qualified type (set " + std::to_string(have) + ") that " + (src ? "the client built itself" : "another Lexicon returned"), J().n("have", (long long)have).n("ask", (long long)ask).str()); };
+                  if (&R == operands[src]) why("foreign-node-returned");
+                  if (std::uintptr_t(R.qualifiers()) != S) why("qualifiers-not-union");
+                  if (&R.main_variant() != &T) why("main-variant-not-innermost");
+                  auto [it, fresh] = model.emplace(std::make_pair(S, &T), &R);
+                  if (!fresh && it->second != &R) why("order-dependent-node");
+                  if (&lex.get_qualified(Qualifiers(S), T) != &R) why("differs-from-direct-request");
+                  ctx().eval(hash_mix(hash_mix(ti, have), hash_mix(ask, std::uint64_t(src))), true);
+               }
+         }
+      }
+   }
+
    void live_table()
    {
       const impl::type_factory& tf = lex;
@@ -149,7 +181,7 @@ static void body(Ctx& C)
           "types of every kind, interleaved with unrelated type requests; sampled part: random sequences of length <= 12 including "
           "extended high bits; every intermediate result is checked (qualifiers == union so far, main variant == T and not Qualified, "
           "same node for the same (union,T) whatever the route); empty sets are requested on every kind and must be refused");
-   C.need("requalifications"); C.need("get_qualified_calls:operand-as-most-derived-type"); C.need("empty_set_refused"); C.need("table_validations"); C.need("distinct_normal_forms");
+   C.need("requalifications"); C.need("get_qualified_calls:operand-as-most-derived-type"); C.need("empty_set_refused"); C.need("table_validations"); C.need("distinct_normal_forms"); if (C.worker == 0) { C.need("requalifications_of_a_client_made_qualified_type"); C.need("requalifications_of_another_lexicons_qualified_type"); }
    Harness H(C.seed);
    // exhaustive: sequences of non-empty subsets, length <= 4; base types split across workers
    long long job = 0;
@@ -190,6 +222,7 @@ static void body(Ctx& C)
       H.run_sequence(H.rng.below(H.base.size()), q, k, "random");
       if (i == 0) C.sample(J().s("kind", "random").raw("sets", jarr(q, q + k, [](std::uintptr_t v) { return std::to_string(v); })).str());
    }
+   if (C.worker == 0) H.foreign_operands();
    H.live_table();
    C.exhaustive(false);
    C.extra("exhaustive_subspace", "\"all 2800 sequences of non-empty subsets of the 3 basic qualifiers of length<=4, for each of 40 unqualified types\"");
